@@ -12,6 +12,7 @@ expr      = ["r"|"sr"|"w"|"sw", k] | ["v", name] | ["c", int]            leaves
           | [op, a, b]   op in + - * // % & | ^ << >>
           | ["neg", a] | ["abs", a]
           | ["m", fmt, addr_expr]                    e.mB[addr] ... e.mq[addr]
+          | ["let", name, a, body] | ["ref", name]   s = <a>; ... s ... s ...: ONE real object used at every ["ref", name]
 
 A ["c", n] leaf is a plain Python int, exactly as a user writes it: int (op) int is folded by
 Python itself, int (op) Expression goes through the reflected operator of the real class.
@@ -58,6 +59,7 @@ class Built:
         self.cuts = []                             # code length after every statement
         self.flags = []                            # per statement: surface-level observations (see `expr`)
         self._flags = set()
+        self._bound = {}                           # objects bound by ["let", ...]
 
     def layout(self):
         """name -> (base register, offset, fmt) as the real descriptors decided"""
@@ -83,9 +85,19 @@ class Built:
             return abs(self.expr(j[1]))
         if k == "m":
             return getattr(e, "m" + j[1])[self.expr(j[2])]
+        if k == "ref":
+            return self._bound[j[1]]               # the very same object again
+        if k == "let":
+            old = self._bound.get(j[1])
+            self._bound[j[1]] = self.expr(j[2])
+            try:
+                return self.expr(j[3])
+            finally:
+                if old is None:
+                    del self._bound[j[1]]
+                else:
+                    self._bound[j[1]] = old
         a, b = self.expr(j[1]), self.expr(j[2])
-        if k == "-" and isinstance(a, self.E.Sum) and isinstance(b, self.E.Expression):
-            self._flags.add("sum-minus")           # Sum.__sub__ with an expression falls back to __add__
         return BINOPS[k](a, b)
 
     def stmt(self, s):
@@ -176,10 +188,30 @@ class Outside(Exception):
     """the expression has no value in the reference semantics (division by zero, negative shift)"""
 
 
+def expand(j, bound=None):
+    """the surface expression with every ["let", name, a, body] written out: what the user's text means (a name
+    bound to an expression object stands for that expression at every use)"""
+    k = j[0]
+    if k in ("c", "v") or k in VIEWS:
+        return j
+    bound = bound or {}
+    if k == "ref":
+        return bound[j[1]]
+    if k == "let":
+        return expand(j[3], {**bound, j[1]: expand(j[2], bound)})
+    if k in ("neg", "abs"):
+        return [k, expand(j[1], bound)]
+    if k == "m":
+        return ["m", j[1], expand(j[2], bound)]
+    return [k, expand(j[1], bound), expand(j[2], bound)]
+
+
 def eval_ref(j, regs, vars_, mem=None):
     """set of acceptable mathematical values (Python int semantics; for // and % with a negative operand
     both the flooring and the truncating result are acceptable, so the result is a set)"""
     k = j[0]
+    if k == "let":
+        return eval_ref(expand(j), regs, vars_, mem)
     if k == "c":
         return {int(j[1])}
     if k in VIEWS:
@@ -217,6 +249,8 @@ def eval_ref(j, regs, vars_, mem=None):
 
 def leaves(j):
     k = j[0]
+    if k == "let":
+        return leaves(expand(j))
     if k in ("c", "v") or k in VIEWS:
         return [j]
     if k in ("neg", "abs"):
@@ -228,6 +262,8 @@ def leaves(j):
 
 def ops_of(j):
     k = j[0]
+    if k == "let":
+        return ops_of(expand(j))
     if k in ("c", "v") or k in VIEWS:
         return []
     if k in ("neg", "abs"):
@@ -239,6 +275,8 @@ def ops_of(j):
 
 def depth(j):
     k = j[0]
+    if k == "let":
+        return depth(expand(j))
     if k in ("c", "v") or k in VIEWS:
         return 0
     if k in ("neg", "abs"):
@@ -267,6 +305,7 @@ def pre_holds(j, regs, vars_, W, mem=None):
     """precondition of DESIGN §4 C01 for the non-ring operators: below every // % >> abs node every
     sub-expression fits the signed W-bit range, shift amounts are in [0, W), divisors are non-zero"""
     lo, hi = -(1 << (W - 1)), 1 << (W - 1)
+    j = expand(j)
 
     def fits(x):
         try:
@@ -419,6 +458,8 @@ def is_int(j):
     k = j[0]
     if k == "c":
         return True
+    if k == "let":
+        return is_int(expand(j))
     if k in ("neg", "abs"):
         return is_int(j[1])
     if k in BINOPS:
@@ -537,6 +578,33 @@ def build_desc(rng, desc, stage):
     return prog
 
 
+def sum_shared(rng, r, c, any_leaf):
+    """s = r + c0 (ONE Sum object) used twice with different added constants: s + c1, s - c2, c3 + s, s - expr, s as
+    an address ... -- before Sum.__add__/__sub__ were repaired the first use changed the constant the second one sees"""
+    s = ["ref", "s"]
+
+    def use():
+        t = rng.randrange(6)
+        if t == 0:
+            return ["+", s, c()]
+        if t == 1:
+            return ["-", s, c()]
+        if t == 2:
+            return ["+", c(), s]
+        if t == 3:
+            return ["-", s, any_leaf()]
+        if t == 4:
+            return ["m", rng.choice(FMTS), ["+", s, ["c", rng.choice([0, 4, -8, 16])]]]
+        return s
+    a, b = use(), use()
+    if a == s and b == s:
+        b = ["+", s, c()]
+    body = [rng.choice(["+", "-", "*", "|", "^"]), a, b]
+    if rng.random() < 0.3:
+        body = [rng.choice(["+", "-", "*"]), body, ["-", s, c()]]              # a third use
+    return ["let", "s", [rng.choice("+-"), r(), c()], body]
+
+
 def gen_special(rng):
     """targeted shapes: Sum objects combined with ints and expressions (Sum.__add__/__sub__), computed addresses,
     destination aliasing, register pressure"""
@@ -545,11 +613,17 @@ def gen_special(rng):
     r = lambda: ["r", rng.choice(regs)]
     any_leaf = lambda: pick_leaf(rng, prog, rng.choice(LEAF_KINDS))
     c = lambda: ["c", rng.choice([0, 1, -1, 8, -8, 2**31, -2**31 - 1, 2**40])]
-    k = rng.randrange(9)
+    k = rng.randrange(11)
     if k == 0:
-        e = [rng.choice("+-"), [rng.choice("+-"), r(), c()], c()]              # Sum (+|-) int: returns None
+        e = [rng.choice("+-"), [rng.choice("+-"), r(), c()], c()]              # Sum (+|-) int: a new Sum
     elif k == 1:
-        e = [rng.choice("+-"), [rng.choice("+-"), r(), c()], any_leaf()]       # Sum - expr: falls back to +
+        e = [rng.choice("+-"), [rng.choice("+-"), r(), c()], any_leaf()]       # Sum (+|-) expr: Binary ADD / SUB
+    elif k == 9:
+        e = sum_shared(rng, r, c, any_leaf)                                    # one Sum object used twice
+    elif k == 10:                                                              # Sum - expr below other operators
+        d = ["-", [rng.choice("+-"), r(), c()], rng.choice([r(), ["w", rng.choice(regs)], any_leaf()])]
+        e = rng.choice([[rng.choice(RING), d, any_leaf()], [rng.choice(RING), any_leaf(), d], ["neg", d],
+                        ["-", ["+", d, c()], any_leaf()]])
     elif k == 2:
         e = ["+", ["*", any_leaf(), any_leaf()], [rng.choice("+-"), r(), c()]]  # Binary + Sum: Sum.__radd__ first
     elif k == 3:
